@@ -33,7 +33,8 @@ type c18Case struct {
 }
 
 var c18Variants = []string{"own-alone", "own-then-others", "others-then-own", "own-in-second-line", "own-with-comment", "own-other-version", "own-lowercase-name-is-other",
-	"same-name-other-instance", "own-tag-as-prefix-of-longer-pseudonym", "others-only", "none", "own-in-middle-of-line"}
+	"same-name-other-instance", "own-tag-as-prefix-of-longer-pseudonym", "others-only", "none", "own-in-middle-of-line",
+	"empty-member-then-own", "leading-comma-then-own", "comment-with-comma-then-own", "empty-line-then-own"}
 
 func genC18(t *tape.Tape, tier string) any {
 	c := &c18Case{}
@@ -201,6 +202,14 @@ func runC18(env *core.Env, ci any) {
 			via = []string{"1.0 " + tag}
 		case "own-in-middle-of-line":
 			via = []string{o[0] + ", " + ownElem + ", 1.1 later-hop"}
+		case "empty-member-then-own": // RFC 9110 5.6.1: a recipient must ignore empty list members
+			via = []string{o[0] + ", , " + ownElem}
+		case "leading-comma-then-own":
+			via = []string{", " + ownElem}
+		case "comment-with-comma-then-own":
+			via = []string{"1.0 alpha (cache, eu-west), " + ownElem}
+		case "empty-line-then-own":
+			via = []string{"", ownElem}
 		case "same-name-other-instance":
 			via = []string{"1.1 " + c.NameA + "-0123456789abcdef0123"}
 		case "own-lowercase-name-is-other":
@@ -259,7 +268,8 @@ func runC18(env *core.Env, ci any) {
 			env.Fail("loop-via-element-shape", feature, "the element this instance appends is %q, want \"%s %s-<unique id>\"", ownElem, wantVer, c.NameA)
 		}
 		isLoop := map[string]bool{"own-alone": true, "own-then-others": true, "others-then-own": true, "own-in-second-line": true, "own-with-comment": true,
-			"own-other-version": true, "own-in-middle-of-line": true}[c.Variant]
+			"own-other-version": true, "own-in-middle-of-line": true, "empty-member-then-own": true, "leading-comma-then-own": true,
+			"comment-with-comma-then-own": true, "empty-line-then-own": true}[c.Variant]
 		arr := w.arrivalsFor("tk2z")
 		if second.err != nil {
 			env.Fail("loop-no-response", feature+"/"+c.Variant, "no response to the crafted request: %v", second.err)
